@@ -28,7 +28,9 @@ STATS = None
 
 
 def _n(key, k=1):
+    """count an evaluation; returns True so that it can sit inside a condition"""
     if STATS is not None: STATS[key] = STATS.get(key, 0) + k
+    return True
 
 
 def stream_byte(stream, i):
@@ -396,7 +398,7 @@ def _check(impl, scn):
                             payload = S[g["used"]:]
                             ok, got, d = verify_chunks(o.rx, payload)
                             if not ok: fails.append(("relay", "%s -> %s (BIND): %s" % (c.name, o.name, d)))
-                            elif complete_ok(T, c, o) and _n("eval relay complete client->third party (BIND)") is None and got != len(payload):
+                            elif complete_ok(T, c, o) and _n("eval relay complete client->third party (BIND)") and got != len(payload):
                                 fails.append(("relay", "%s -> %s (BIND): %d of %d bytes arrived although nobody closed" % (c.name, o.name, got, len(payload))))
                             peer_expect = bytes(o.sent)
                         else:
@@ -423,7 +425,7 @@ def _check(impl, scn):
             elif T["lossy"]:
                 pass                      # a dropped SYN is never retried, a dropped segment only retransmitted when a later ACK arrives,
                                           # and the proxy closes right after a failure reply: completeness is not demanded on lossy paths
-            elif _n("eval reply complete" if not c.closed else "skip reply complete (client closed)") is None and not c.closed and got < complete_replies and not T["crash"]:
+            elif not c.closed and _n("eval reply complete") and got < complete_replies and not T["crash"]:
                 fails.append(("reply", "%s (sent %s…): only %d of the %d reply bytes arrived by the end of the run" % (c.name, S[:24].hex(), got, complete_replies)))
             elif must_close and not c.closed and not T["crash"]:
                 _n("eval closure (%s)" % ("reject" if g["status"] == "reject" else "failure reply"))
